@@ -199,7 +199,18 @@ impl ToInternedString for SimplePropertyAccess {
         let target = self.target.to_interned_string(interner);
         match self.field {
             PropertyAccessField::Const(ident) => {
-                format!("{target}.{}", interner.resolve_expect(ident.sym()))
+                // NOTE: `0.a` does not lex as a member access of the literal `0`; `0 .a` does.
+                let separator = if target.ends_with(|c: char| c.is_ascii_digit())
+                    && matches!(*self.target, Expression::Literal(_))
+                {
+                    " "
+                } else {
+                    ""
+                };
+                format!(
+                    "{target}{separator}.{}",
+                    interner.resolve_expect(ident.sym())
+                )
             }
             PropertyAccessField::Expr(ref expr) => {
                 format!("{target}[{}]", expr.to_interned_string(interner))
